@@ -366,6 +366,10 @@ func (cr *concRun) pickKnown(r *gen.Rng, alone bool) (idInfo, bool) {
 	if len(cand) == 0 {
 		return idInfo{}, false
 	}
+	if len(cand) > 3 && r.P(60) {
+		// contention: prefer the few most recently inserted documents
+		return cand[len(cand)-1-r.Intn(3)], true
+	}
 	return cand[r.Intn(len(cand))], true
 }
 
@@ -729,4 +733,109 @@ func (cr *concRun) logHistory() {
 		}
 		cr.c.Log("client %d [%d,%d] %s -> %s %s", o.ClientId, o.Call, o.Return, o.Input.(cop), out.Class, snap)
 	}
+}
+
+// RunConcCatalog: several goroutines race to create the same collection (and
+// index) and then insert into it. Exactly one creation may succeed; the others
+// must fail with ErrCollectionExist (or a store conflict) without side effects,
+// so every acknowledged insert is still counted and the index list is intact.
+func RunConcCatalog(c *core.Ctx) {
+	r := c.R
+	backend := gen.Pick(r, []string{BBolt, BBolt, BadgerMem, BadgerDisk})
+	h, err := Open(c, backend, "")
+	if err != nil {
+		c.Violate("open-error", "opening %s failed: %v", backend, err)
+		return
+	}
+	defer h.Destroy()
+	c.Backend = backend
+	h.MS.SetPerturb(mon.Perturb{On: true, Seed: r.U64(), Pct: gen.Pick(r, []int{30, 60, 90})})
+	n := r.Range(2, 6)
+	name := gen.Pick(r, []string{"z", "c", "c:"})
+	var wg sync.WaitGroup
+	var created, existed, conflicts, otherErr int64
+	var inserted int64
+	var idxCreated int64
+	var panicMsg atomic.Value
+	for i := 0; i < n; i++ {
+		wg.Add(1)
+		rr := r.Fork()
+		go func() {
+			defer wg.Done()
+			for attempt := 0; attempt < 3; attempt++ {
+				core.Tick()
+				err := Do(func() error { return h.DB.CreateCollection(name) })
+				cls := classifyConc(err)
+				if pe, ok := IsPanic(err); ok {
+					panicMsg.Store(fmt.Sprintf("%v\n%s", pe.Val, trim(pe.Stack, 20)))
+					return
+				}
+				switch cls {
+				case OK:
+					atomic.AddInt64(&created, 1)
+				case ECollYes:
+					atomic.AddInt64(&existed, 1)
+				case "conflict":
+					atomic.AddInt64(&conflicts, 1)
+					continue
+				default:
+					atomic.AddInt64(&otherErr, 1)
+				}
+				break
+			}
+			// now the collection exists (someone created it, or we did): use it
+			for k := 0; k < 4; k++ {
+				core.Tick()
+				switch rr.Intn(4) {
+				case 0:
+					if err := Do(func() error { return h.DB.CreateIndex(name, "a") }); err == nil {
+						atomic.AddInt64(&idxCreated, 1)
+					}
+				default:
+					d := document.NewDocument()
+					d.Set("a", int64(rr.Intn(5)))
+					if err := Do(func() error { return h.DB.Insert(name, d) }); err == nil {
+						atomic.AddInt64(&inserted, 1)
+					}
+				}
+			}
+		}()
+	}
+	wg.Wait()
+	h.MS.SetPerturb(mon.Perturb{})
+	c.Eval(n)
+	if v := panicMsg.Load(); v != nil {
+		c.Violate("conc:panic", "CreateCollection panicked under concurrency: %s", v)
+		return
+	}
+	if created != 1 || otherErr != 0 {
+		c.Violate("conc:catalog-create", "%d goroutines created collection %q concurrently on %s: %d succeeded (want exactly 1), %d got ErrCollectionExist, %d conflicts, %d other errors", n, name, backend, created, existed, conflicts, otherErr)
+		return
+	}
+	cnt, err := h.DB.Count(query.NewQuery(name))
+	if err != nil {
+		c.Violate("conc:catalog-count", "Count: %v", err)
+		return
+	}
+	docs, _ := h.DB.FindAll(query.NewQuery(name))
+	if int64(cnt) != inserted || int64(len(docs)) != inserted {
+		c.Violate("conc:catalog-lost-effect", "after concurrent CreateCollection(%q) on %s: %d inserts were acknowledged but Count = %d and FindAll returns %d documents (a late creation overwrote the catalog record?)", name, backend, inserted, cnt, len(docs))
+		return
+	}
+	has, _ := h.DB.HasIndex(name, "a")
+	if (idxCreated > 0) != has || idxCreated > 1 {
+		c.Violate("conc:catalog-index", "%d CreateIndex calls succeeded but HasIndex = %v", idxCreated, has)
+		return
+	}
+	s := NewS(c, h)
+	mc := model.NewColl()
+	for _, d := range docs {
+		mc.Docs[d.ObjectId()] = model.FromDoc(d)
+	}
+	if has {
+		mc.Indexes["a"] = true
+	}
+	s.m.Colls[name] = mc
+	s.Audit("concurrent catalog operations")
+	c.Cell("conc-catalog|%s|clients%d|conflicts=%v", backendClass(backend), n, conflicts > 0)
 }
